@@ -20,7 +20,8 @@ struct Cfg18 {
     recoverer: Option<bool>,
     fixed_ints: Option<bool>,
     edition: u8,
-    public: bool,
+    /// 0 private, 1 pub, 2 pub(super), 3 pub(self), 4 pub(crate), 5 pub(in crate)
+    vis: u8,
     mod_name: Option<String>,
     error_on_conflicts: bool,
     warnings_are_errors: bool,
@@ -49,7 +50,7 @@ fn kind_from(s: &str) -> AKind {
 
 impl Cfg18 {
     fn to_json(&self) -> Value {
-        json!({"kind": kind_str(self.kind), "recoverer": self.recoverer, "fixed_ints": self.fixed_ints, "edition": self.edition, "public": self.public, "mod_name": self.mod_name,
+        json!({"kind": kind_str(self.kind), "recoverer": self.recoverer, "fixed_ints": self.fixed_ints, "edition": self.edition, "vis": self.vis, "mod_name": self.mod_name,
                "error_on_conflicts": self.error_on_conflicts, "warnings_are_errors": self.warnings_are_errors, "lex_mod_name": self.lex_mod_name, "lex_case_insensitive": self.lex_case_insensitive})
     }
     fn from_json(v: &Value) -> Cfg18 {
@@ -58,7 +59,7 @@ impl Cfg18 {
             recoverer: v["recoverer"].as_bool(),
             fixed_ints: v["fixed_ints"].as_bool(),
             edition: v["edition"].as_u64().unwrap_or(2) as u8,
-            public: v["public"].as_bool().unwrap_or(false),
+            vis: v["vis"].as_u64().unwrap_or(0) as u8,
             mod_name: v["mod_name"].as_str().map(String::from),
             error_on_conflicts: v["error_on_conflicts"].as_bool().unwrap_or(true),
             warnings_are_errors: v["warnings_are_errors"].as_bool().unwrap_or(false),
@@ -88,7 +89,14 @@ pub fn ctstep_main(gp: &str, lp: &str, outdir: &str, cfg_json: &str) {
                 1 => lrpar::RustEdition::Rust2018,
                 _ => lrpar::RustEdition::Rust2021,
             })
-            .visibility(if cfg.public { lrpar::Visibility::Public } else { lrpar::Visibility::Private });
+            .visibility(match cfg.vis {
+                0 => lrpar::Visibility::Private,
+                1 => lrpar::Visibility::Public,
+                2 => lrpar::Visibility::PublicSuper,
+                3 => lrpar::Visibility::PublicSelf,
+                4 => lrpar::Visibility::PublicCrate,
+                _ => lrpar::Visibility::PublicIn("crate".to_string()),
+            });
         if let Some(r) = cfg.recoverer {
             ctp = ctp.recoverer(if r { RecoveryKind::CPCTPlus } else { RecoveryKind::None });
         }
@@ -131,7 +139,14 @@ pub fn ctstep_main(gp: &str, lp: &str, outdir: &str, cfg_json: &str) {
                 1 => lrlex::RustEdition::Rust2018,
                 _ => lrlex::RustEdition::Rust2021,
             })
-            .visibility(if cfg.public { lrlex::Visibility::Public } else { lrlex::Visibility::Private });
+            .visibility(match cfg.vis {
+                0 => lrlex::Visibility::Private,
+                1 => lrlex::Visibility::Public,
+                2 => lrlex::Visibility::PublicSuper,
+                3 => lrlex::Visibility::PublicSelf,
+                4 => lrlex::Visibility::PublicCrate,
+                _ => lrlex::Visibility::PublicIn("crate".to_string()),
+            });
         if let Some(m) = &lmn {
             lb = lb.mod_name(m);
         }
@@ -164,6 +179,15 @@ fn run_step(gp: &str, lp: &str, outdir: &str, cfg: &Cfg18) -> Result<StepOut, St
     let pl = raw.lines().find(|l| l.starts_with("PARSER")).unwrap_or("");
     let ll = raw.lines().find(|l| l.starts_with("LEXER")).unwrap_or("");
     Ok(StepOut { parser_ok: pl.starts_with("PARSER ok"), regenerated: if pl.contains("regenerated=true") { Some(true) } else if pl.contains("regenerated=false") { Some(false) } else { None }, lexer_ok: ll.starts_with("LEXER ok"), raw })
+}
+
+/// A different visibility; half of the time plain `pub` (whose name is a prefix of all the others').
+fn next_vis(rng: &mut Rng, cur: u8) -> u8 {
+    if cur != 1 && rng.chance(1, 2) {
+        1
+    } else {
+        (cur + 1 + rng.below(5) as u8) % 6
+    }
 }
 
 fn mtime(p: &str) -> Option<std::time::SystemTime> {
@@ -211,16 +235,16 @@ impl Check for C18 {
         "C18"
     }
     fn ncases(&self, tier: Tier) -> u64 {
-        tier.sz(48, 600)
+        tier.sz(128, 1600)
     }
     fn rule(&self) -> &'static str {
-        "one history per case: 8 (quick) / 14 (thorough) seeded steps over {edit grammar to another valid grammar, edit lexer, change one builder option (recoverer, yacckind, serialisation format, visibility, edition, module names, error_on_conflicts, warnings_are_errors, lexer flag), make the grammar invalid (syntax error / unknown rule / conflict under error_on_conflicts / unused token under warnings_are_errors), make the lexer invalid, repair, rebuild unchanged}; every step ends with an incremental build in a subprocess followed by a clean-build oracle in another subprocess (same grammar path, empty output directory); compared: success/failure, generated parser and lexer files byte-identical modulo build timestamp, no generated parser left behind by a failing build, regenerated() true iff sources or settings changed since the last successful build (or the output was removed by a failed build), lexer output untouched (inode+mtime) iff nothing it depends on changed. Non-trivial = history with >= 1 skipped build and >= 1 regeneration caused by an option change or a failure followed by a repair; distinct by history."
+        "one history per case: 8 (quick) / 14 (thorough) seeded steps over {edit grammar to another valid grammar, edit lexer, change one builder option (recoverer, yacckind, serialisation format, visibility (all six variants), edition, module names, error_on_conflicts, warnings_are_errors, lexer flag), make the grammar invalid (syntax error / unknown rule / conflict under error_on_conflicts / unused token under warnings_are_errors), make the lexer invalid, repair, rebuild unchanged}; every step ends with an incremental build in a subprocess followed by a clean-build oracle in another subprocess (same grammar path, empty output directory); compared: success/failure, generated parser and lexer files byte-identical modulo build timestamp, no generated parser left behind by a failing build, regenerated() true iff sources or settings changed since the last successful build (or the output was removed by a failed build), lexer output untouched (inode+mtime) iff nothing it depends on changed. Non-trivial = history with >= 1 skipped build and >= 1 regeneration caused by an option change or a failure followed by a repair; distinct by history."
     }
     fn assumptions(&self) -> Vec<&'static str> {
         vec!["file timestamps are real; edits always happen after the previous build's output was written, so the strict mtime comparison in the skip test sees them the way a user's edits would be seen", "files are never touched without a content change", "every build starts after the file-system clock has ticked past the last edit (the harness waits for it); if the generated parser is nevertheless not strictly newer than the grammar file, a regeneration without a change is the builder's documented conservative behaviour and is counted (regenerated_on_timestamp_tie), not reported"]
     }
     fn floor(&self, tier: Tier) -> u64 {
-        tier.sz(20, 250)
+        tier.sz(60, 800)
     }
     fn required_counters(&self, _t: Tier) -> Vec<&'static str> {
         vec!["histories", "steps", "builds_skipped", "builds_regenerated", "builds_failed", "option_changes", "failing_builds_after_good_build", "files_compared_with_clean_build"]
@@ -238,7 +262,7 @@ impl Check for C18 {
         let lp = format!("{dir}/g.l");
         let outd = format!("{dir}/out");
         let mut g = valid_grammar(&mut rng);
-        let mut cfg = Cfg18 { kind: g.kind, recoverer: None, fixed_ints: None, edition: 2, public: false, mod_name: None, error_on_conflicts: false, warnings_are_errors: false, lex_mod_name: None, lex_case_insensitive: None };
+        let mut cfg = Cfg18 { kind: g.kind, recoverer: None, fixed_ints: None, edition: 2, vis: rng.below(6) as u8, mod_name: None, error_on_conflicts: false, warnings_are_errors: false, lex_mod_name: None, lex_case_insensitive: None };
         let render = |g: &AG, rng: &mut Rng| render_fancy(g, rng, &YOpts::plain()).text;
         let mut gtext = render(&g, &mut rng);
         let mut ltext = lexer_for(&g);
@@ -287,7 +311,7 @@ impl Check for C18 {
                 }
                 3 => {
                     out.count("option_changes", 1);
-                    let which = rng.below(10);
+                    let which = rng.weighted(&[2, 2, 2, 5, 2, 2, 2, 2, 2, 2]);
                     match which {
                         0 => cfg.recoverer = *rng.pick(&[None, Some(true), Some(false)]),
                         1 => {
@@ -295,11 +319,11 @@ impl Check for C18 {
                             if matches!(cfg.kind, AKind::OriginalGeneric | AKind::OriginalNoAction) {
                                 cfg.kind = if cfg.kind == AKind::OriginalGeneric { AKind::OriginalNoAction } else { AKind::OriginalGeneric };
                             } else {
-                                cfg.public = !cfg.public;
+                                cfg.vis = next_vis(&mut rng, cfg.vis);
                             }
                         }
                         2 => cfg.fixed_ints = *rng.pick(&[None, Some(true), Some(false)]),
-                        3 => cfg.public = !cfg.public,
+                        3 => cfg.vis = next_vis(&mut rng, cfg.vis),
                         4 => cfg.edition = (cfg.edition + 1 + rng.below(2) as u8) % 3,
                         5 => cfg.mod_name = if cfg.mod_name.is_some() { None } else { Some(format!("pm{}_y", rng.below(3))) },
                         6 => cfg.error_on_conflicts = !cfg.error_on_conflicts,
@@ -384,7 +408,7 @@ impl Check for C18 {
                 }
             };
             // (unset recoverer / serialisation format mean the defaults: CPCT+ / variable-sized integers)
-            let pcfg = json!([kind_str(cfg.kind), cfg.recoverer.unwrap_or(true), cfg.fixed_ints.unwrap_or(false), cfg.edition, cfg.public, cfg.mod_name, cfg.error_on_conflicts, cfg.warnings_are_errors]);
+            let pcfg = json!([kind_str(cfg.kind), cfg.recoverer.unwrap_or(true), cfg.fixed_ints.unwrap_or(false), cfg.edition, cfg.vis, cfg.mod_name, cfg.error_on_conflicts, cfg.warnings_are_errors]);
             if inc.raw.contains("panic") {
                 out.violate("panic", &["ct-build"], format!("incremental build panicked: {}", inc.raw.trim()), detail(String::new()));
             }
@@ -453,7 +477,7 @@ impl Check for C18 {
                 last_ok = Some((gtext.clone(), pcfg.clone()));
                 // lexer output untouched iff nothing it depends on changed
                 if clean.lexer_ok {
-                    let lcfg = json!([cfg.edition, cfg.public, cfg.lex_mod_name, cfg.lex_case_insensitive]);
+                    let lcfg = json!([cfg.edition, cfg.vis, cfg.lex_mod_name, cfg.lex_case_insensitive]);
                     let lex_id_after = file_id(&format!("{outd}/g.l.rs"));
                     let unchanged = matches!(&last_lexer_ok, Some((lt, gt, c)) if *lt == ltext && *gt == gtext && *c == lcfg);
                     if unchanged && lex_id_before.is_some() && lex_id_before != lex_id_after {
